@@ -548,32 +548,37 @@ func (c *Client) processConnack(connack *packet.Connack) error {
 		return err
 	}
 
+	// retrieve and resend the stored packets before calls are admitted: a
+	// packet stored by a call must not be resent as well, and a new publish
+	// must not overtake the retransmissions
+	packets, err := c.Session.AllPackets(session.Outgoing)
+	closeConn := err != nil
+	if err == nil {
+		for _, pkt := range packets {
+			// check for publish packets
+			publish, ok := pkt.(*packet.Publish)
+			if ok {
+				// set the dup flag on a publish packet
+				publish.Dup = true
+			}
+
+			// resend packet
+			err = c.send(pkt, true)
+			if err != nil {
+				break
+			}
+		}
+	}
+
 	// set state to connected
 	atomic.StoreUint32(&c.state, clientConnected)
 
 	// complete future
 	c.connectFuture.Complete(connack)
 
-	// retrieve stored packets
-	packets, err := c.Session.AllPackets(session.Outgoing)
+	// die if the packets could not be retrieved or resent
 	if err != nil {
-		return c.die(err, true)
-	}
-
-	// resend stored packets
-	for _, pkt := range packets {
-		// check for publish packets
-		publish, ok := pkt.(*packet.Publish)
-		if ok {
-			// set the dup flag on a publish packet
-			publish.Dup = true
-		}
-
-		// resend packet
-		err = c.send(pkt, true)
-		if err != nil {
-			return c.die(err, false)
-		}
+		return c.die(err, closeConn)
 	}
 
 	return nil
